@@ -8,6 +8,7 @@ use std::cell::Cell;
 thread_local! { static OVERFLOW: Cell<bool> = Cell::new(false); }
 pub fn overflow_reset() { OVERFLOW.with(|f| f.set(false)); }
 pub fn overflowed() -> bool { OVERFLOW.with(|f| f.get()) }
+pub fn mark_overflow() { OVERFLOW.with(|f| f.set(true)); }
 fn poison() -> Rat { OVERFLOW.with(|f| f.set(true)); Rat { n: 0, d: 1 } }
 
 #[derive(Clone, Copy, Debug, Default)]
